@@ -1,5 +1,6 @@
 import Driver.Util
 import Driver.Skeleton
+import Driver.SkelReplay
 /-! `driver_skel <area>`: like `driver`, for the areas that need `Generated/Commander.lean` (its own executable, so that a
 commander the translator cannot read only stops the skeleton obligations, not the trace validation of the engine checks). -/
 open Lean Driver
@@ -20,7 +21,8 @@ partial def loopSkel (h : IO.FS.Stream) (out : IO.FS.Stream) (f : Handler) : IO 
   loopSkel h out f
 
 def main (args : List String) : IO UInt32 := do
-  let areas : List (String × Handler) := [("skelpaths", SkelD.handlePaths), ("skelsummary", SkelD.handleSummary)]
+  let areas : List (String × Handler) := [("skelpaths", SkelD.handlePaths), ("skelsummary", SkelD.handleSummary),
+    ("skelreplay", SkelReplayD.handleReplay)]
   match args with
   | [area] =>
     match areas.find? (·.1 == area) with
